@@ -83,7 +83,8 @@ MeanPair(c) ==   \* same data under two sentinels: same means, sentinel echoed
                         ELSE c.y1[i] = c.y2[i]>> >>)
 
 Verdict(c) ==
-    CASE c.op = "roll"     -> Roll(c)
+    CASE c.exc # ""        -> <<"REJECT", "NoException", c.exc>>
+      [] c.op = "roll"     -> Roll(c)
       [] c.op = "rollpair" -> RollPair(c)
       [] c.op = "rollbulk" -> RollBulk(c)
       [] c.op = "meangrp"  -> MeanGrp(c)
